@@ -18,6 +18,32 @@ Proof.
       destruct (Nat.ltb_spec j (length l)); destruct (Nat.ltb_spec (S j) (S (length l))); try lia; reflexivity.
 Qed.
 
+(** flat index <-> multi-index *)
+Lemma flatidx_lt : forall shape ix, Forall2 lt ix shape -> (flatidx shape ix < prodn shape)%nat.
+Proof.
+  induction shape as [|n t IH]; intros ix H; inversion H; subst; cbn [flatidx prodn fold_right]; [lia|].
+  fold (prodn t). specialize (IH _ H4). nia.
+Qed.
+Lemma unflat_flatidx : forall shape ix, Forall2 lt ix shape -> unflat shape (flatidx shape ix) = ix.
+Proof.
+  induction shape as [|n t IH]; intros ix H; inversion H; subst; cbn [flatidx unflat]; [reflexivity|].
+  pose proof (flatidx_lt t l H4) as Hlt. assert (HP : prodn t <> 0%nat) by lia.
+  rewrite Nat.add_comm. rewrite Nat.div_add by exact HP. rewrite Nat.mod_add by exact HP.
+  rewrite Nat.div_small, Nat.mod_small by exact Hlt. cbn [plus]. f_equal. apply IH. exact H4.
+Qed.
+Lemma unit_ix_ok d k : forall shape, length shape = d -> (forall n, In n shape -> (2 <= n)%nat) -> Forall2 lt (unit_ix d k) shape.
+Proof.
+  unfold unit_ix. intros shape Hl Hge.
+  assert (G : forall s (sh : list nat), (forall n, In n sh -> (2 <= n)%nat) ->
+              Forall2 lt (map (fun j => if Nat.eqb j k then 1%nat else 0%nat) (seq s (length sh))) sh).
+  { intros s sh. revert s. induction sh as [|n t IHt]; intros s Hn; cbn [length seq map]; constructor.
+    - specialize (Hn n (or_introl eq_refl)). destruct (Nat.eqb s k); lia.
+    - apply IHt. intros m Hm. apply Hn. right. exact Hm. }
+  rewrite <- Hl. apply G. exact Hge.
+Qed.
+Lemma nth_unit_ix d k a : (a < d)%nat -> nth a (unit_ix d k) 0%nat = if Nat.eqb a k then 1%nat else 0%nat.
+Proof. intros Ha. unfold unit_ix. rewrite nth_map_seq0 by exact Ha. reflexivity. Qed.
+
 Section FrozenStep.
   Variable shape : list nat.
   Variable grids : list (list R).
@@ -25,6 +51,7 @@ Section FrozenStep.
   Notation d := (length shape).
   Hypothesis Hwf : wf_pops shape pops.
   Hypothesis Hglen : length grids = d.
+  Hypothesis Hshape : forall n, In n shape -> (2 <= n)%nat.
   Hypothesis Hgrids : forall k, (k < d)%nat ->
     length (nth k grids []) = ax_len shape k /\ (2 <= ax_len shape k)%nat /\
     (forall j, (j < length (nth k grids []) - 1)%nat -> 0 < dx (nth k grids []) j).
@@ -40,8 +67,108 @@ Section FrozenStep.
   Variable dj : bool.
   Hypothesis Hns : nonsingular shape grids pops dj dt.
 
-  (** adding something at a point where population f sits at index 0 does not touch its marginal at i <> 0 *)
+  (** adding something at the point e_k (k <> f), where population f sits at index 0, does not touch its marginal at i <> 0 *)
   Lemma marginal_add_at_unit (phi : list R) k v : (k < d)%nat -> k <> f ->
     marginal_at shape grids f i (add_at phi (flatidx shape (unit_ix d k)) v) = marginal_at shape grids f i phi.
-  Proof. Abort.
+  Proof.
+    intros Hk Hkf. unfold marginal_at. set (j0 := flatidx shape (unit_ix d k)).
+    assert (Hok : Forall2 lt (unit_ix d k) shape) by (apply unit_ix_ok; [reflexivity|exact Hshape]).
+    assert (Hj0 : (j0 < prodn shape)%nat) by (apply flatidx_lt; exact Hok).
+    assert (Hw : mweight grids d f i (unflat shape j0) = 0).
+    { unfold j0. rewrite unflat_flatidx by exact Hok. unfold mweight. rewrite (nprod_pull _ d f Hf).
+      rewrite Nat.eqb_refl, nth_unit_ix by exact Hf. destruct (Nat.eqb_spec f k); [congruence|].
+      destruct (Nat.eqb_spec 0 i); [congruence|]. ring. }
+    apply rsum_ext. intros j Hj. rewrite nthF_add_at.
+    destruct (Nat.eqb_spec j j0) as [->|Hne]; [|reflexivity].
+    rewrite Hw. ring.
+  Qed.
+
+  Lemma in_combine_nth_error : forall (l : list (@pop R)) s k p, In (k, p) (combine (seq s (length l)) l) -> nth_error l (k - s) = Some p /\ (s <= k)%nat.
+  Proof.
+    induction l as [|x l IH]; intros s k p Hin; cbn [length seq combine In] in Hin; [contradiction|].
+    destruct Hin as [E|Hin].
+    - injection E as <- <-. rewrite Nat.sub_diag. split; [reflexivity|lia].
+    - destruct (IH (S s) k p Hin) as [Hn Hle]. split; [|lia].
+      replace (k - s)%nat with (S (k - S s)) by lia. exact Hn.
+  Qed.
+
+  (** the mutation influx of a step leaves the frozen population's interior marginal alone *)
+  Lemma inject_preserves_frozen_marginal theta (phi : list R) :
+    marginal_at shape grids f i (inject shape grids pops theta dt phi) = marginal_at shape grids f i phi.
+  Proof.
+    unfold inject.
+    assert (Hin : forall k p, In (k, p) (combine (seq 0 d) pops) -> nth_error pops k = Some p /\ (k < d)%nat).
+    { intros k p Hin. unfold wf_pops in Hwf. rewrite <- Hwf in Hin. destruct (in_combine_nth_error pops 0 k p Hin) as [Hn _].
+      rewrite Nat.sub_0_r in Hn. split; [exact Hn|]. rewrite <- Hwf. apply nth_error_Some. congruence. }
+    revert phi Hin. generalize (combine (seq 0 d) pops). intros l.
+    induction l as [|[k p] l IH]; intros phi Hin; cbn [fold_left]; [reflexivity|].
+    destruct (Hin k p (or_introl eq_refl)) as [Hn Hk].
+    destruct (p_frozen p || p_nomut p) eqn:Efl.
+    - apply IH. intros; apply Hin; right; assumption.
+    - rewrite IH by (intros; apply Hin; right; assumption).
+      apply marginal_add_at_unit; [exact Hk|]. intros ->. rewrite Hpf in Hn. injection Hn as <-. rewrite Hfrozen in Efl. discriminate.
+  Qed.
+
+  (** ... and so do the sweeps of all the non-frozen populations: the whole step *)
+  Theorem step_preserves_frozen_marginal theta (phi : list R) :
+    marginal_at shape grids f i (step shape grids pops theta dt dj phi) = marginal_at shape grids f i phi.
+  Proof.
+    unfold step. rewrite <- (inject_preserves_frozen_marginal theta phi).
+    assert (Hin : forall k p, In (k, p) (combine (seq 0 d) pops) -> nth_error pops k = Some p /\ (k < d)%nat).
+    { intros k p Hin. unfold wf_pops in Hwf. rewrite <- Hwf in Hin. destruct (in_combine_nth_error pops 0 k p Hin) as [Hn _].
+      rewrite Nat.sub_0_r in Hn. split; [exact Hn|]. rewrite <- Hwf. apply nth_error_Some. congruence. }
+    revert Hin. generalize (inject shape grids pops theta dt phi). generalize (combine (seq 0 d) pops). intros l.
+    induction l as [|[k p] l IH]; intros acc Hin; cbn [fold_left]; [reflexivity|].
+    destruct (Hin k p (or_introl eq_refl)) as [Hn Hk].
+    destruct (p_frozen p) eqn:Efr.
+    - apply IH. intros; apply Hin; right; assumption.
+    - rewrite IH by (intros; apply Hin; right; assumption).
+      assert (Hkf : f <> k) by (intros ->; rewrite Hpf in Hn; injection Hn as <-; congruence).
+      destruct (Hgrids k Hk) as (Hg1 & Hg2 & Hg3).
+      apply (sweep_preserves_marginal_of_other_population shape grids pops k f i p Hk Hf Hkf Hn Hg1 Hg2 Hg3 Hglen Hint dt Hdt dj).
+      intros o q Ho Hq. apply (Hns k p o q acc Hn Ho Hq).
+  Qed.
 End FrozenStep.
+
+(** the time step chosen by the rule is positive *)
+Lemma dt_of_pos tf : 0 < tf -> forall (pops : list (@pop R)) x, dt_of tf pops = Some x -> 0 < x.
+Proof.
+  intros Htf. induction pops as [|p l IHl]; intros x Hx; [discriminate|].
+  cbn [dt_of fold_right] in Hx. fold (dt_of tf l) in Hx.
+  assert (Hcd : forall y, compute_dt tf p = Some y -> 0 < y).
+  { intros y Hy. unfold compute_dt, nltb in Hy. numR. destruct (Rleb (maxVM p) 0) eqn:E; cbn [negb] in Hy; [discriminate|].
+    apply Rleb_false in E. injection Hy as <-. apply Rdiv_lt_0_compat; assumption. }
+  destruct (compute_dt tf p) as [y|] eqn:Ey, (dt_of tf l) as [z|] eqn:Ez; cbn [omin] in Hx; try discriminate.
+  - injection Hx as <-. unfold nmin. numR. destruct (Rleb y z); [apply Hcd; reflexivity | apply IHl; reflexivity].
+  - injection Hx as <-. apply Hcd; reflexivity.
+  - injection Hx as <-. apply IHl; reflexivity.
+Qed.
+
+(** C04 for whole integrations: however long the integration and however the other populations evolve, a frozen
+    population's marginal density at an interior frequency never changes (constant-parameter driver) *)
+Theorem integrate_preserves_frozen_marginal shape grids pops f i pf dj tf :
+  wf_pops shape pops -> length grids = length shape -> (forall n, In n shape -> (2 <= n)%nat) ->
+  (forall k, (k < length shape)%nat ->
+     length (nth k grids []) = ax_len shape k /\ (2 <= ax_len shape k)%nat /\
+     (forall j, (j < length (nth k grids []) - 1)%nat -> 0 < dx (nth k grids []) j)) ->
+  (f < length shape)%nat -> nth_error pops f = Some pf -> p_frozen pf = true -> i <> 0%nat ->
+  nthF (nth f grids []) i <> 0 /\ nthF (nth f grids []) i <> 1 ->
+  0 < tf -> (forall dt, 0 < dt -> nonsingular shape grids pops dj dt) ->
+  forall fuel theta t T phi res,
+  integrate_const fuel shape grids pops theta tf dj t T phi = Some res ->
+  marginal_at shape grids f i res = marginal_at shape grids f i phi.
+Proof.
+  intros Hwf Hgl Hsh Hg Hf Hpf Hfr Hi0 Hint Htf Hns.
+  induction fuel as [|fuel IH]; intros theta t T phi res Hres; cbn [integrate_const] in Hres;
+    unfold nltb in Hres; numR.
+  - destruct (Rleb T t); cbn [negb] in Hres; [injection Hres as <-; reflexivity | discriminate].
+  - destruct (Rleb T t) eqn:ET; cbn [negb] in Hres; [injection Hres as <-; reflexivity|].
+    apply Rleb_false in ET.
+    set (this_dt := match dt_of tf pops with Some dt => nmin dt (T - t) | None => T - t end) in *.
+    assert (Hd : 0 < this_dt).
+    { unfold this_dt. destruct (dt_of tf pops) as [dt|] eqn:E; [|lra].
+      pose proof (dt_of_pos tf Htf pops dt E). unfold nmin. numR. destruct (Rleb dt (T - t)); lra. }
+    rewrite (IH _ _ _ _ _ Hres).
+    apply (step_preserves_frozen_marginal shape grids pops Hwf Hgl Hsh Hg f i pf Hf Hpf Hfr Hi0 Hint this_dt); [lra|].
+    apply Hns. exact Hd.
+Qed.
